@@ -58,7 +58,7 @@ def fill_segment(seg, v, seg_ref, skip=None, ec=None):
         setattr(seg, r.name.lower(), field_text(v, r, ec))
 
 
-def build_message(v, name, tree, reference=None, level=None, skip=None, extra=None):
+def build_message(v, name, tree, reference=None, level=None, skip=None, extra=None, spell_structure=False):
     """Build the derivation tree through the API.  skip: path tuple of a child to leave out.
     extra: (path of parent, child name, copies) to add copies of a child.  Returns the Message."""
     from hl7apy.core import Message
@@ -92,7 +92,8 @@ def build_message(v, name, tree, reference=None, level=None, skip=None, extra=No
         parts = (name.split('_') + ['A01', ''])[:2]
         rows = dict(tables.field_rows(v, 'MSH'))
         ncomp = len(rows[9].children)
-        m.msh.msh_9 = '%s^%s^%s' % (parts[0], parts[1], name) if ncomp >= 3 else '%s^%s' % (parts[0], parts[1])
+        # a structure id without underscore (ACK) cannot be derived from type^event: spell it out as third component
+        m.msh.msh_9 = '%s^%s^%s' % (parts[0], parts[1], name) if ncomp >= 3 or ('_' not in name and spell_structure) else '%s^%s' % (parts[0], parts[1])
     return m
 
 
